@@ -470,9 +470,10 @@ def b_nidq(B):
                             bad.append(("analog line", j, f"{i0.size} events written, {i1.size} recovered"))
             # the same samples read again on the same reader with another threshold / floor percentile: each call thresholds with its own options
             with spikeglx.Reader(f) as sr:
-                for kw in ({"threshold": 1.2}, {"threshold": 2.9}, {"threshold": 1.2, "floor_percentile": None}, {"threshold": 1.2}, {"threshold": 0.4},
-                           {"threshold": 1.2, "floor_percentile": 0}, {"threshold": 0.6, "floor_percentile": False}, {"threshold": 2.2, "floor_percentile": 0}):
-                    for sl in (slice(0, ns), slice(0, ns), slice(57, 82), slice(58, 63), slice(50, 100)):      # whole recording twice, short chunks around a rising edge (the floor is the interpolated 10th percentile of the chunk)
+                # the same samples asked again with other options (consecutive calls on one slice), short chunks around a rising edge (the floor is the interpolated 10th percentile of the chunk)
+                for sl in (slice(0, ns), slice(57, 82), slice(58, 63), slice(50, 100)):
+                    for kw in ({"threshold": 1.2}, {"threshold": 2.9}, {"threshold": 1.2, "floor_percentile": None}, {"threshold": 1.2}, {"threshold": 1.2}, {"threshold": 0.4},
+                               {"threshold": 1.2, "floor_percentile": 0}, {"threshold": 0.6, "floor_percentile": False}, {"threshold": 2.2, "floor_percentile": 0}):
                         got = sr.read_sync(sl, **kw)
                         raw_v = sr.read(sl, slice(nma, nma + na), sync=False)
                         base_ = np.percentile(raw_v, 10, axis=0) if kw.get("floor_percentile", 10) else 0          # 0 / False / None switch the floor removal off
